@@ -110,3 +110,31 @@ pub fn strict_div() {}
 pub fn same_term<T: PartialEq>(a: T, b: T) -> bool {
 	a == b
 }
+
+// ---------------------------------------------------------------- serde (feature "serde")
+// native counterpart of the interpreter's serde model: a real round trip through the in-memory
+// token format of the Kani crate (kani/src/tok.rs)
+#[cfg(feature = "serde")]
+#[path = "../../../kani/src/tok.rs"]
+#[allow(unused, clippy::all)]
+mod tok;
+
+#[cfg(feature = "serde")]
+pub fn serde_roundtrip<T: serde::Serialize + serde::de::DeserializeOwned>(x: &T) -> Option<T> {
+	let s = Box::new(tok::to_tokens::<T, 16384>(x).ok()?);
+	tok::from_tokens_by_name::<T>(s.toks()).ok()
+}
+
+/// adversarial serialized window {buf, index}: Some(window) when Window's Deserialize accepts it
+#[cfg(feature = "serde")]
+pub fn serde_from_parts(buf: &Vec<ValueType>, index: yata::core::PeriodType) -> Option<yata::core::Window<ValueType>> {
+	#[derive(serde::Serialize)]
+	#[serde(rename = "Window")]
+	struct RawWindow<'a> {
+		buf: &'a Vec<ValueType>,
+		index: yata::core::PeriodType,
+	}
+	let raw = RawWindow { buf, index };
+	let s = Box::new(tok::to_tokens::<RawWindow, 16384>(&raw).ok()?);
+	tok::from_tokens_by_name::<yata::core::Window<ValueType>>(s.toks()).ok()
+}
